@@ -37,8 +37,15 @@ _UNENC_OBJ = _gen()
 _LAMBDA_OBJ = lambda: 0  # noqa: E731
 
 
-def realcall(a):
+def realcall(a, cfg=None):
     """the concrete call an argument code stands for: (args, kwds)"""
+    args, kwds = _realcall(a)
+    if cfg is not None and cfg.get('stub') == 'req2' and len(args) == 1 and not kwds:
+        return (args[0], 0), {}          # def stub(x, y): every call passes both
+    return args, kwds
+
+
+def _realcall(a):
     if a == UNHASH:
         return ([1, 2],), {}
     if a == UNHASHF:
@@ -85,7 +92,7 @@ def G(x, y, tol=None, none_arg=None, typed=False):
 
 
 def g_cfg(cfg, a):
-    (args, kwds) = realcall(a)
+    (args, kwds) = realcall(a, cfg)
     x = args[0] if args else kwds.get('x')
     y = args[1] if len(args) > 1 else kwds.get('y', 0)
     return G(x, y, cfg.get('tol'), cfg.get('none_arg'), 'typed' in cfg.get('keymap', ''))
@@ -204,6 +211,9 @@ class Impl:
         if cfg.get('stub') == 'var':
             def stub(*a):
                 return body(a[0], a[1] if len(a) > 1 else 0)
+        elif cfg.get('stub') == 'req2':
+            def stub(x, y):
+                return body(x, y)
         else:
             def stub(x, y=0):
                 return body(x, y)
@@ -250,7 +260,7 @@ class Impl:
     def classify(self, a):
         """keyres of the call f(a): ('ok', id) | ('fail',) | ('unhash',)"""
         try:
-            ar, kwd = realcall(a)
+            ar, kwd = realcall(a, self.cfg)
             key = self.f.key(*ar, **kwd)
         except Exception:
             return ('fail',)
@@ -322,7 +332,7 @@ class Impl:
                 random.choice = choice
                 self.choice = None
                 try:
-                    ar, kwd = realcall(a)
+                    ar, kwd = realcall(a, self.cfg)
                     extra['passed'] = (ar, kwd)
                     r = f(*ar, **kwd)
                 finally:
@@ -335,11 +345,11 @@ class Impl:
                     extra['received'] = self.received[-1]
             elif kind == 'lookup':
                 extra['kr'] = self.classify(op[1])
-                ar, kwd = realcall(op[1])
+                ar, kwd = realcall(op[1], self.cfg)
                 out = ('val', vcode(f.lookup(*ar, **kwd)))
             elif kind == 'key':
                 extra['kr'] = self.classify(op[1])
-                ar, kwd = realcall(op[1])
+                ar, kwd = realcall(op[1], self.cfg)
                 k = f.key(*ar, **kwd)
                 try:
                     hash(k)
